@@ -63,7 +63,24 @@ def side_of(fn, e, depth=0, seen=None):
     return set()
 
 
+def memo_fields(unit):
+    """class record type id -> (decl id of the memo-table field, decl id of the key variable): the field on
+    which recDescend calls find(key)"""
+    out = {}
+    for fn in unit.functions:
+        if fn.body is None or fn.q.rsplit('::', 1)[-1] != 'recDescend':
+            continue
+        for c in fn.calls():
+            if c['k'] == 'CXXMemberCallExpr' and method_name(c) == 'find' and c.get('args'):
+                o = strip(c.get('obj'))
+                a = strip(c['args'][0])
+                if o is not None and o['k'] == 'MemberExpr' and o.get('dk') == 'field' and a is not None and a['k'] == 'DeclRefExpr':
+                    out[fn.d.get('rcd')] = (o['d'], a['d'])
+    return out
+
+
 def run(unit, em):
+    MEMO = memo_fields(unit)
     for fn in unit.functions:
         if fn.body is None or '/mtbdd/' not in fn.file:
             continue
@@ -141,7 +158,9 @@ def run(unit, em):
             rec = [c for c in fn.calls() if cname(c) == 'recDescend']
             if rec:
                 def clears(x):
-                    return x['k'] == 'CXXMemberCallExpr' and method_name(x) == 'clear' and (strip(x.get('obj')) or {}).get('n') == 'ht'
+                    mf = MEMO.get(fn.d.get('rcd'), (None, None))[0]
+                    o = strip(x.get('obj')) if x['k'] == 'CXXMemberCallExpr' else None
+                    return x['k'] == 'CXXMemberCallExpr' and method_name(x) == 'clear' and o is not None and (o.get('d') == mf if mf is not None else o.get('n') == 'ht')
                 ok, _ = must_pass_through(cfg, (cfg.entry, 0), lambda x: x is rec[0], clears, start_after=False)
                 nm = '%s::operator() [%d parameters]: memo reset' % (cls, len(fn.params))
                 if ok:
@@ -264,7 +283,7 @@ def run(unit, em):
         for n in fn.walk():
             if n['k'] == 'DeclStmt':
                 for d in n.get('decls', []):
-                    if 'cacheAddress' == d['n'] or 'CacheAddress' in unit.tname(d['ts']):
+                    if d['d'] == MEMO.get(fn.d.get('rcd'), (None, None))[1] or (fn.d.get('rcd') not in MEMO and 'CacheAddress' in unit.tname(d['ts'])):
                         keyvar = (d, n)
         if keyvar is None:
             em.unknown(fn, '%s::recDescend: memo key' % cls, 'key variable not found', 'C5')
@@ -289,7 +308,7 @@ def run(unit, em):
             rd = rv['d']
 
             def stores(x):
-                if x['k'] == 'CXXMemberCallExpr' and method_name(x) == 'insert' and (strip(x.get('obj')) or {}).get('n') == 'ht':
+                if x['k'] == 'CXXMemberCallExpr' and method_name(x) == 'insert' and (strip(x.get('obj')) or {}).get('d') == MEMO.get(fn.d.get('rcd'), (None, None))[0]:
                     ds = {y.get('d') for y in walk(x) if y['k'] == 'DeclRefExpr'}
                     return rd in ds and d['d'] in ds
                 return False
